@@ -25,7 +25,8 @@ RULE = ("exhaustive enumeration of (ballot, assertion) pairs for each candidate 
 REQUIRED = ["assort_pairs_compared", "assort_pairs_nontrivial", "exhaustive_tables", "reader_entries_compared",
             "reader_files", "reapplied_NEB", "reapplied_NEN", "ballots_lacking_contest_compared", "ballots_on_a_reused_record", "reader_files_with_non_ascii_names",
             "contest_identifier_is_not_a_string", "ballot_mappings_not_stored_in_preference_order",
-            "ballots_listing_unranked_candidates_with_rank_0"]
+            "ballots_listing_unranked_candidates_with_rank_0", "assorter_means_compared_with_generator_tallies",
+            "assorter_means_compared:some_cards_lack_the_contest"]
 ASSUMPTIONS = ["rankings are duplicate-free (the property's quantifier)", "candidate ids are strings in both readers",
                "JSON mapping per the RAIRE documentation: WINNER_ONLY <-> NEB, IRV_ELIMINATION + already_eliminated <-> NEN"]
 EXHAUSTIVE = "c14.assort enumerates every partial ranking x ordered pair x eliminated set for each n listed in the counters"
@@ -247,4 +248,54 @@ def run_reapply(case, rec):
             rec.violation("c14.reapply", f"{k[0]}:reapplied_tallies_differ_from_reported",
                           {"assertion": str(k), "reported": [a.votes_for_winner, a.votes_for_loser], "reapplied": [tw, tl],
                            "contest_field_type": type(a.contest).__name__})
+            return
+    # the audit's side of the same election: the assorter MEAN over the cards that carry the contest (style) is above 1/2
+    # exactly when the generator's tally comparison holds - for the returned assertions and for a few arbitrary ones
+    # (true or false), on CVR lists in which some cards lack the contest
+    import random as _r
+    from shangrla.core.Audit import Assertion, Audit, Contest, CVR
+    from shangrla.core.NonnegMean import NonnegMean
+    prng = _r.Random(len(case["ballots"]) * 131 + len(case["cands"]))
+    cands, cname = [str(c) for c in case["cands"]], "339"
+    gen_cvrs = {bid: ({cname: v[r["cname"]]} if r["cname"] in v else v) for bid, v in r["cvrs"].items()}
+    audit_cvrs = [CVR(id=bid, votes=({cname: {c: k + 1 for c, k in v[cname].items()}} if cname in v else {"other": {"Z": 1}}))
+                  for bid, v in gen_cvrs.items()]
+    n_c = sum(1 for c in audit_cvrs if c.has_contest(cname))
+    if n_c == 0 or len(cands) < 2:
+        return
+    todo = [rc.key_of(a, r["NEB"], r["NEN"]) for a in res][:4]
+    for _ in range(3):
+        w, l = prng.sample(cands, 2)
+        rest = [c for c in cands if c not in (w, l)]
+        todo.append(("NEB", w, l) if prng.random() < 0.5 else ("NEN", w, l, frozenset(prng.sample(rest, prng.randint(0, len(rest))))))
+    con = Contest.from_dict({"id": cname, "name": cname, "risk_limit": 0.05, "cards": max(n_c, 1),
+                             "choice_function": Contest.SOCIAL_CHOICE_FUNCTION.IRV, "n_winners": 1, "candidates": cands,
+                             "winner": [str(case["winner"])], "audit_type": Audit.AUDIT_TYPE.CARD_COMPARISON,
+                             "test": NonnegMean.alpha_mart, "estim": NonnegMean.optimal_comparison, "use_style": True})
+    js = [({"assertion_type": "WINNER_ONLY", "winner": str(k[1]), "loser": str(k[2]), "already_eliminated": ""} if k[0] == "NEB" else
+           {"assertion_type": "IRV_ELIMINATION", "winner": str(k[1]), "loser": str(k[2]), "already_eliminated": sorted(str(e) for e in k[3])})
+          for k in todo]
+    ok, asns = rec.guard("c14.call:make_assertions_from_json", Assertion.make_assertions_from_json, contest=con, candidates=cands,
+                         json_assertions=js, test=NonnegMean.alpha_mart, estim=NonnegMean.optimal_comparison)
+    if not ok:
+        return
+    for k in todo:
+        g = r["NEB"](cname, k[1], k[2]) if k[0] == "NEB" else r["NEN"](cname, k[1], k[2], list(k[3]))
+        tw = sum(g.is_vote_for_winner(c) for c in gen_cvrs.values())
+        tl = sum(g.is_vote_for_loser(c) for c in gen_cvrs.values())
+        key = str(k[1]) + " v " + str(k[2]) + ("" if k[0] == "NEB" else " elim " + " ".join(sorted(str(e) for e in k[3])))
+        a = asns.get(key)
+        if a is None:
+            continue
+        ok, m = rec.guard("c14.call:mean", a.assorter.mean, audit_cvrs, True)
+        if not ok:
+            return
+        rec.count("assorter_means_compared_with_generator_tallies")
+        if len(audit_cvrs) > n_c:
+            rec.count("assorter_means_compared:some_cards_lack_the_contest")
+        want = (tw - tl + n_c) / (2 * n_c)
+        if abs(float(m) - want) > 1e-12 or (float(m) > 0.5) != (tw > tl):
+            rec.violation("c14.assort", f"{k[0]}:assorter_mean_disagrees_with_generator_tallies",
+                          {"assertion": key, "mean": float(m), "expected": want, "winner_tally": tw, "loser_tally": tl,
+                           "cards_with_contest": n_c, "cards": len(audit_cvrs)})
             return
